@@ -10,6 +10,7 @@ import (
 	"github.com/ava-labs/avalanchego/utils/set"
 
 	"github.com/ava-labs/hypersdk/internal/heap"
+	"github.com/ava-labs/hypersdk/internal/verifhook"
 )
 
 type bucket struct {
@@ -45,6 +46,7 @@ func NewEMap[T Item]() *EMap[T] {
 
 // Add adds a list of txs to the EMap.
 func (e *EMap[T]) Add(items []T) {
+	verifhook.AwaitLock("emap.Add", 0, &e.mu)
 	e.mu.Lock()
 	defer e.mu.Unlock()
 
@@ -92,6 +94,7 @@ func (e *EMap[T]) add(id ids.ID, t int64) {
 // SetMin removes all buckets with a lower
 // timestamp than [t] from e's bucketHeap.
 func (e *EMap[T]) SetMin(t int64) []ids.ID {
+	verifhook.AwaitLock("emap.SetMin", 0, &e.mu)
 	e.mu.Lock()
 	defer e.mu.Unlock()
 
@@ -114,6 +117,7 @@ func (e *EMap[T]) SetMin(t int64) []ids.ID {
 
 // Any returns true if any items have been seen by EMap.
 func (e *EMap[T]) Any(items []T) bool {
+	verifhook.AwaitRLock("emap.Any", 0, &e.mu)
 	e.mu.RLock()
 	defer e.mu.RUnlock()
 
@@ -126,6 +130,7 @@ func (e *EMap[T]) Any(items []T) bool {
 }
 
 func (e *EMap[T]) Contains(items []T, marker set.Bits, stop bool) set.Bits {
+	verifhook.AwaitRLock("emap.Contains", 0, &e.mu)
 	e.mu.RLock()
 	defer e.mu.RUnlock()
 
